@@ -178,6 +178,17 @@ func c13lateRedirect(c *Check, rng *rand.Rand, env *Env, w *c13world) {
 		cl.Send(append(Req("GET", slowKey), r.raw...))
 		env.Barrier()
 		gates[0].Open()
+		// the error reply has left its node before the barrier starts (a barrier orders what
+		// the proxy has received, not what a node is still about to write)
+		errKey := string(r.keys[r.groups[r.slots[0]][0]])
+		for k := 0; k < 2500; k++ {
+			if pl := w.script.Lookup(errKey); pl != nil {
+				if seen := pl.SeenReqs(); len(seen) > 0 && seen[len(seen)-1].Replied() != 0 {
+					break
+				}
+			}
+			time.Sleep(2 * time.Millisecond)
+		}
 		env.Barrier()
 		if i%2 == 0 {
 			sg.Open() // flushed (and its message recycled) before the redirect arrives
